@@ -33,7 +33,15 @@ def gen_lines(rng, proj, inf, n):
         if rng.random() < 0.3:
             for d in rng.sample(alld, min(len(alld), rng.choice([1, 1, 2]))):
                 fail[str(d)] = rng.choice(FAIL_MODES)
-        lines.append({"words": words, "ignore": ignore, "fail": fail, "rebuild": k < 2 or rng.random() < 0.13,
+        ed = proj.get("edit")
+        if ed and words and rng.random() < 0.5:
+            # mention the edited target first (or, after a rename, its old name)
+            t = [t for t in c04gen.all_targets(inf) if t["def"] == ed["def"]][0]
+            if ed["kind"] == "rename" and rng.random() < 0.3:
+                words = [c04gen.rand_case(rng, ed["old_name"])] + words
+            else:
+                words = [c04gen.rand_case(rng, t["tname"])] + [c04gen.arg_word(rng, ty, inf, 1.0) for ty in t["args"]] + words
+        lines.append({"words": words, "ignore": ignore, "fail": fail, "rebuild": (k < 2 or rng.random() < 0.13) and not ed,
                       "mode": c04gen.gen_mode(rng), "argv0": c04gen.gen_argv0(rng, inf, proj.get("binname"))})
     return lines
 
@@ -168,7 +176,22 @@ def start_compiled(bindir, k, neutral, named, a, d):
 
 
 def run_project(mage, ctx, proj, lines):
-    d = mage.project(c04gen.render(proj), name=proj["name"])
+    files = c04gen.render(proj)
+    history = bool(proj.get("prev_files"))
+    if history:
+        # first generation: built and run once through the cached route (hash mode), then the edit
+        d = mage.project(proj["prev_files"], name=proj["name"])
+        r0 = mage.run(d, ["-l"], env={"MAGEFILE_HASHFAST": "1"})
+        if r0["rc"] != 0:
+            return {"build_error": r0}
+        for rel in set(proj["prev_files"]) - set(files):
+            os.remove(os.path.join(d, rel))
+        for rel, text in files.items():
+            if proj["prev_files"].get(rel) != text:
+                with open(os.path.join(d, rel), "w") as f:
+                    f.write(text)
+    else:
+        d = mage.project(files, name=proj["name"])
     bindir = os.path.join(ctx.tmp, "static", proj["name"])
     neutral = os.path.join(bindir, "neutral", "magebin")
     os.makedirs(os.path.dirname(neutral), exist_ok=True)
@@ -184,7 +207,7 @@ def run_project(mage, ctx, proj, lines):
         if rc["rc"] != 0:
             return {"build_error": rc}
     res = []
-    first = True       # the first run through mage builds the cached binary
+    first = not history       # the first run through mage builds the cached binary (in a history: the hash-mode run does, never a rebuilding run)
     for k, ln in enumerate(lines):
         env = {}
         if ln["ignore"] is not None:
@@ -294,6 +317,14 @@ def run(ctx):
     else:
         for k in range(nproj):
             proj = c04gen.gen_project(rng, "p%04d" % k)
+            if k % 4 == 3:
+                # a short HISTORY: the package is built and run once, then ONE of its several magefiles is edited
+                # (new target / changed parameter list / renamed target); the lines are run against the edited
+                # package with the same cache in hash mode - the cached route must follow the current files
+                proj["split"] = c04gen.gen_split(rng, proj, force_first=True)
+                proj = c04gen.gen_edit(rng, proj)
+            elif rng.random() < 0.5:
+                proj["split"] = c04gen.gen_split(rng, proj)
             inf0 = c04gen.info(proj)
             # the file name of a second `mage -compile` output: spells a target or an alias of this package
             proj["binname"] = c04gen.binary_name(rng, rng.choice([t["tname"] for t in c04gen.all_targets(inf0)] + [a for a, _ in inf0["aliases"]]))
@@ -327,7 +358,7 @@ def run(ctx):
     nviol = 0
     dist = {"ends": {}, "words_per_line": {}, "name_kinds": {"plain": 0, "ns": 0, "import": 0, "import-ns": 0, "alias": 0},
             "param_types": {}, "arity": {}, "modes": {}, "binary_started_as": {}, "fail_lines": 0, "no_words": 0, "projects_with_imports": 0, "projects_with_aliases": 0,
-            "projects_with_default": 0}
+            "projects_with_default": 0, "projects_with_several_magefiles": 0, "history_edits": {}}
     for pi, ((proj, lines), inf, res) in enumerate(zip(work, infos, results)):
         if "build_error" in res:
             # the generator only emits packages in the documented form: mage must build them
@@ -336,6 +367,9 @@ def run(ctx):
             continue
         types = sorted(set(ty for p in proj["pkgs"] for d in p["decls"] for ty in d["params"]))
         dist["projects_with_imports"] += len(proj["pkgs"]) > 1
+        dist["projects_with_several_magefiles"] += len(set((proj.get("split") or {}).values()) | {0}) > 1
+        if proj.get("edit"):
+            dist["history_edits"][proj["edit"]["kind"]] = dist["history_edits"].get(proj["edit"]["kind"], 0) + 1
         dist["projects_with_aliases"] += bool(proj["aliases"])
         dist["projects_with_default"] += proj["default"] is not None
         for p in proj["pkgs"]:
